@@ -17,7 +17,8 @@ Proof. repeat split. Qed.
 
 Lemma gen_dispatch_ok :
   archive_exts_zip = [".zip"] /\ archive_exts_tar = [".gz"; ".bz2"; ".tgz"] /\ pyproject_only_for_dirs = true
-  /\ cfg_only_dir_follows_cfg = true
+  /\ cfg_only_dir_follows_cfg = true /\ cfg_read_as_utf8 = true
+  /\ open_default_encoding = "utf-8" /\ fallback_name_from_pkg_info = true
   /\ name_repl_from = " "%char /\ name_repl_to = "-"%char /\ frameworks = ["pbr"; "d2to1"; "use_pyscaffold"].
 Proof. repeat split. Qed.
 
